@@ -46,7 +46,7 @@ from vgi_rpc.http.server import make_wsgi_app
 
 PROPERTY = "C26"
 LEVEL = "exploration"
-QUICK_RUNS = 2400
+QUICK_RUNS = 5000
 THOROUGH_RUNS = 400_000
 QUICK_BUDGET_S = 90
 THOROUGH_BUDGET_S = 1500
@@ -71,9 +71,9 @@ ASSUMPTIONS = [
     "requests are unary (the per-session lock is released in process_response; streaming bodies are out of scope)",
 ]
 
-SCRIPTS = ["r", "yr", "ryr", "c", "yc", "cy", "ycy", "co", "cyo", "yry", "rc", "coy"]
+SCRIPTS = ["r", "yr", "yc", "ycy", "yry", "c", "cy", "ryr", "co", "cyo", "rc", "coy", "yc", "yr"]
 TTLS = [300.0, 1.5, 2.5]
-THINK = [0.0, 0.0, 0.6, 1.2, 2.0]
+THINK = [0.0, 0.0, 0.0, 0.6, 1.2, 2.0]
 # measured: scheduler steps (line events in _sticky.py + primitive operations) per unit of work, rounded up
 STEPS_REQ, STEPS_DELETE, STEPS_TICK, STEPS_OPER = 80, 40, 12, 25
 
@@ -126,7 +126,8 @@ def run(ctx: RunCtx) -> None:
         with s2.http_seams(sched, det):
             sticky_mod.threading = SimThreading(sched)  # type: ignore[assignment]
             rpc = RpcServer(S.StickyProto, S.StickyImpl(world), server_id="w0")
-            app = make_wsgi_app(rpc, prefix=prefix, token_key=b"K" * 32, enable_sticky=True, sticky_default_ttl=ttl)
+            app = make_wsgi_app(rpc, prefix=prefix, token_key=b"K" * 32, enable_sticky=True, sticky_default_ttl=ttl,
+                                enable_not_found_page=False, enable_landing_page=False, enable_describe_page=False)
             registry = S.registry_of(app)
             handle = drain_handle(app)
             assert handle is not None
